@@ -20,6 +20,22 @@ def timer(disabled=True, hour=0, minute=0):
     return {"disabled": disabled, "hour": hour, "minute": minute}
 
 
+def renumber_acs(inst, ids):
+    """Give the air-conditioners of `inst` the AC numbers `ids` (numbers need not be
+    contiguous nor start at 0)."""
+    old = [a["status"]["ac"] for a in inst["acs"]]
+    timers, errors = inst["timers"], inst["errors"]
+    inst["timers"], inst["errors"] = {}, {}
+    for a, o, n in zip(inst["acs"], old, ids):
+        a["ability"]["ac"] = a["status"]["ac"] = n
+        a["ability"]["name"] = f"AC{n}"
+        if o in timers:
+            inst["timers"][n] = timers[o]
+        if o in errors:
+            inst["errors"][n] = errors[o]
+    return inst
+
+
 def default_installation(gen, n_acs=1, zones_per_ac=(2,), new_format=True, names=None):
     """A plain installation.  zones_per_ac: contiguous partition."""
     inst = {"gen": gen, "version": (False, ["1.2.3"] if gen == 4 else ["1.0.3", "1.0.3"]),
